@@ -25,6 +25,8 @@ material dict: {"eps": scalar|3|9, "mu": ..., "sig_e": ..., "sig_m": ...}
 
 from __future__ import annotations
 
+import dataclasses
+
 import copy
 
 FACES = ("min_x", "max_x", "min_y", "max_y", "min_z", "max_z")
@@ -260,7 +262,27 @@ def build(scene, key_seed=0, extra_objects=None, extra_constraints=None, apply=T
 
     # ---- boundaries --------------------------------------------------------------------------
     bloch = tuple(float(x) for x in scene.get("bloch", (0, 0, 0)))
-    for face in FACES:
+    via_config = scene.get("boundary_api") == "config"
+    if via_config:
+        # the public BoundaryConfig / boundary_objects_from_config route (all six faces need a type; the full wave
+        # vector goes into the config and, as documented, only axes typed "bloch" may use their component of it)
+        kw = {"bloch_vector": bloch}
+        for face in FACES:
+            spec = scene["faces"].get(face, {"type": "none"})
+            if spec["type"] == "none" or any(k not in ("type", "thickness") for k in spec):
+                raise ValueError("boundary_api=config needs a plain boundary type on every face")
+            tag = face.replace("_", "")
+            kw[f"boundary_type_{tag}"] = spec["type"]
+            kw[f"thickness_grid_{tag}"] = int(spec.get("thickness", 1))
+        bdict, bcons = fdtdx.boundary_objects_from_config(fdtdx.BoundaryConfig(**kw), volume)
+        for face in FACES:
+            b = bdict[face].aset("name", f"b_{face}")
+            objs.append(b)
+            names["boundaries"][face] = f"b_{face}"
+        for c in bcons:
+            face = next(f for f in FACES if bdict[f].name == c.object)
+            cons.append(dataclasses.replace(c, object=f"b_{face}"))
+    for face in [] if via_config else FACES:
         spec = scene["faces"].get(face, {"type": "none"})
         typ = spec["type"]
         if typ == "none":
